@@ -216,7 +216,7 @@ def handle (line : String) : String :=
      | none => "bad-request"
      | some v =>
        let X := mkExt (parseFk rest)
-       let s := ser X v
+       let s := serW X v
        let rt := s.bind de
        let n := norm X v
        let toml := match s with | some s => tomlAccepts s | none => false
@@ -226,7 +226,7 @@ def handle (line : String) : String :=
     (match parseSVal s with
      | none => "bad-request"
      | some s => match de s with | some v => "ok " ++ valStr (canonVal v) | none => "err")
-  | [.atom "limits"] => s!"json={jsonDepthLimit} yaml={yamlDepthLimit} toml={tomlDepthLimit}"
+  | [.atom "limits"] => s!"json={jsonDepthLimit} yaml={yamlDepthLimit} toml={tomlDepthLimit} writer={writerDepthLimit}"
   | .atom "graph" :: root :: nodes =>
     -- graph <root> (l e …) (m e …) …   with e = n<int> | r<idx>
     let parseElem : Sexp → Option GElem := fun e =>
@@ -241,7 +241,7 @@ def handle (line : String) : String :=
       | _ => none
     (match root.nat?, nodes.mapM parseNode with
      | some r, some g =>
-       (match serG g (g.length + 1) [] r with
+       (match serG g (g.length + 2) [] r with
         | some sv => svalStr sv
         | none => "err")
      | _, _ => "bad-request")
